@@ -327,6 +327,8 @@ class Ctx(object):
             if key not in [h['key'] for h in self.known_hits]:
                 self.known_hits.append({'key': key, 'what': k.get('what', what)})
             return
+        if any(v['key'] == key for v in self.violations):
+            return
         if len(self.violations) < 20:
             self.violations.append({'key': key, 'what': what, 'replay': replay})
 
